@@ -94,7 +94,7 @@ GHOST_STR = ('lasttag', 'lastmsg')
 # class); G[c] = sum over the ballots that stand with candidate c of weight x multiplier (index 0: exhausted ballots).
 # Both are maintained by the engine at every write of Candidate.vote / Election.exhausted / Ballot.weight / Ballot.index
 # (sum-update lemma) while a contract with ledger=True is being verified.
-GHOST_VAL = ('T', 'Tm')
+GHOST_VAL = ('T', 'Tm', 'Tlog')
 GHOST_ARR = ('G',)
 CUR_EX = [None]
 
@@ -474,6 +474,13 @@ def install_election(ex):
                        'the bound carries over to the value of the whole ballot line (x number of papers)', [l1, l3], l2)
             st.assume(l1)
             st.assume(l2)
+            if ex.instance != 'real':
+                from .arith import SCALE as _S
+                l5 = old * s_ - new * v_ <= v_ + _S - 1
+                ex.col.add('PRE', ['C02', 'C06'], caller, 'weight@%d:loss:ledger-terms' % k,
+                           'old value x surplus - new value x tally is less than tally + one vote (one unit per truncation)', asm, l5)
+                st.assume(l5)
+                st.ghost['ledger_loss_lemma'] = (ov.t, l5)
     ex.hooks['pre_store'] = pre_store
 
     def post_contract(info, env, result, pre, st):
@@ -483,7 +490,8 @@ def install_election(ex):
         if not ledger_on(ex) or sw is None or info.name != 'transfer' or 'ballot' not in env or getattr(ex, 'muted', 0):
             return
         caller = ex.cur_func.qualname if ex.cur_func is not None else ''
-        hc, v, s_, T0, G0h, Th, Gh, Wh = sw
+        hc, v, s_, T0, G0h, Th, Gh, Wh = sw[:8]
+        mc_, it_ = (sw[8], sw[9]) if len(sw) > 9 else (None, None)
         b = env['ballot'].t
         mraw = z3.Select(C.heap_array(st, BALLOT, 'multiplier', 'val'), b)
         real = ex.instance == 'real'
@@ -504,6 +512,19 @@ def install_election(ex):
         add('left-pile-x-surplus', 'the same, multiplied by the surplus (polynomial identity)', [e2], id2)
         for f in (e1, e2, id1, id2):
             st.assume(f)
+        loss = st.ghost.get('ledger_loss_lemma')
+        if not real and mc_ is not None and loss is not None and loss[0].eq(b):
+            # the loss side: (old x surplus - new x tally) x papers <= (tally + one vote) x papers, and the papers counter multiplied out
+            from .arith import SCALE
+            l_loss = loss[1]
+            l4 = old * m * s_ - new * m * v <= v * m + SCALE * m
+            e3 = mc_(it_ + 1) == mc_(it_) + m
+            id3 = (v + SCALE) * mc_(it_ + 1) == (v + SCALE) * mc_(it_) + v * m + SCALE * m
+            add('loss-per-line', 'the rounding loss of a ballot line is less than one unit per truncation and paper', [l_loss, m >= 1], l4)
+            add('papers', 'the papers counter grows by the papers of the line', asm, e3)
+            add('papers-x-bound', 'the same, multiplied by (tally + one vote) (polynomial identity)', [e3], id3)
+            for f in (l4, e3, id3):
+                st.assume(f)
     ex.hooks['post_contract'] = post_contract
 
     RULE_HOOKS = ('droop.rules.electionrule.ElectionRule.action', 'droop.rules.electionmethods.MethodWIGM.action',
@@ -516,24 +537,63 @@ def install_election(ex):
         """C02 at every point of a rule's count() where an action is recorded: the tallies and the non-transferable total add
         up to no more than the ballots cast (exactly the ballots cast under exact arithmetic)"""
         caller = ex.cur_func.qualname if ex.cur_func is not None else ''
-        if not ledger_on(ex) or not caller.startswith(WIGM_MODULES) or not caller.endswith('.count') or getattr(ex, 'muted', 0):
+        if not ledger_on(ex) or not caller.startswith(WIGM_MODULES) or not caller.endswith('.count'):
             return
+        quiet = bool(getattr(ex, 'muted', 0))     # exploratory runs: no obligations, but the ghost bookkeeping below still happens
+
+        class _Q:
+            @staticmethod
+            def add(*a, **k):
+                if not quiet:
+                    ex.col.add(*a, **k)
+        col_ = _Q
         from .arith import lift
         election_facts(ex, st)
         nB = C.read_field(st, C.read_field(st, SRef(repo.resolve(ELEC), THE_E), 'electionProfile'), 'nBallots').t
         total = lift(C, SInt(nB), st)
         T = ghost_get(st, 'T').t
         line = getattr(node, 'lineno', 0)
-        k = C.site_anchor_n(caller, 'ledger-log', line)
+        k = C.site_anchor_n(caller, 'ledger-log', line) if not quiet else 0
         what = info.qualname.rsplit('.', 1)[1]
         if ex.instance == 'real':
-            ex.col.add('PRE', ['C02'], caller, 'ledger@%d:%s:conserved' % (k, what),
+            col_.add('PRE', ['C02'], caller, 'ledger@%d:%s:conserved' % (k, what),
                        'at a recorded step the tallies and the non-transferable total add up to exactly the ballots cast (exact arithmetic)',
                        C.assumptions(st), T == total)
         else:
-            ex.col.add('PRE', ['C02'], caller, 'ledger@%d:%s:no-creation' % (k, what),
+            col_.add('PRE', ['C02'], caller, 'ledger@%d:%s:no-creation' % (k, what),
                        'at a recorded step the tallies and the non-transferable total add up to no more than the ballots cast',
                        C.assumptions(st), T <= total)
+        # loss accounting between two recorded steps: nothing is lost unless a surplus was transferred in between, and then less than
+        # one unit per truncation and ballot paper (Tlog = the total at the previous recorded step; the ballots cast before the first)
+        Tlog = ghost_get(st, 'Tlog').t
+        rw = st.ghost.get('ledger_rw')
+        if ex.instance == 'real' or rw is None:
+            col_.add('PRE', ['C02'], caller, 'ledger@%d:%s:lossless-step' % (k, what),
+                       'between two recorded steps without a surplus transfer (any two steps under exact arithmetic) no vote is lost',
+                       C.assumptions(st), T == Tlog)
+        else:
+            v_, s_, Mtot, T0_, Tx_, G0h_ = rw
+            from .arith import SCALE, scale_facts
+            scale_facts(st, ex)
+            held = G0h_ == v_
+            e_t = z3.And(Tlog == T0_, T == Tx_ - s_)
+            idL = (Tlog - T) * v_ == v_ * s_ - (Tx_ - T0_) * v_
+            idG = G0h_ * s_ == v_ * s_
+            asm = C.assumptions(st)
+            col_.add('PRE', ['C02', 'C06'], caller, 'ledger@%d:%s:held-its-pile' % (k, what),
+                       'the elected candidate held exactly the value of the ballots standing with it when its surplus sweep began', asm, held)
+            col_.add('PRE', ['C02'], caller, 'ledger@%d:%s:step-totals' % (k, what),
+                       'the total before the sweep is the total of the previous recorded step; after the reset it is the total after the sweep less the surplus',
+                       asm, e_t)
+            col_.add('PRE', ['C02'], caller, 'ledger@%d:%s:loss-identity' % (k, what), 'polynomial identity (loss x tally)', [e_t], idL)
+            col_.add('PRE', ['C02'], caller, 'ledger@%d:%s:pile-identity' % (k, what), 'polynomial identity (pile x surplus)', [held], idG)
+            for f_ in (held, e_t, idL, idG):
+                st.assume(f_)
+            col_.add('PRE', ['C02'], caller, 'ledger@%d:%s:loss-bounded' % (k, what),
+                       'a surplus transfer loses less than one unit per truncation and ballot paper: loss x tally <= (tally + one vote) x papers re-weighted',
+                       C.assumptions(st), (Tlog - T) * v_ <= (v_ + SCALE) * Mtot)
+        st.ghost['g:Tlog'] = SVal(T)
+        st.ghost['ledger_rw'] = None
 
     def pre_call(info, env, st, fr, node):
         q = info.qualname
@@ -777,6 +837,9 @@ def install_election(ex):
         """generic quantified candidates for loops that credit votes through transfer():
         a candidate that is not hopeful keeps its tally (transfer credits hopeful candidates only)"""
         out = []
+        if ledger_on(ex) and 'g:Tlog' in W.ghost:
+            # loops whose every iteration ends with a recorded step: the total of the previous recorded step is the current total
+            out.append(('Tlog == T', lambda st, it: ghost_get(st, 'Tlog').t == ghost_get(st, 'T').t))
         if (CAND, 'vote') in W.heap and (CAND, 'state') not in W.heap:
             varr0 = C.heap_array(pre, CAND, 'vote', 'val')
             sarr0 = C.heap_array(pre, CAND, 'state', 'str')
@@ -998,13 +1061,20 @@ def install_election(ex):
         b = z3.Int('b!led')
 
         reweights = (BALLOT, 'weight') in W.heap
+        mc = z3.Function(fresh_name('papers'), I, I)      # number of ballot papers on the lines visited so far (definitional)
+        marr_ = C.heap_array(pre, BALLOT, 'multiplier', 'val')
+        wh = whole_of_r if real else whole_of
 
         def ax(st, it):
+            out = [sname == v - q]
             if reweights:
                 # the re-weighting sites of the body state their bounds in these terms (head values of the ledger included)
                 st.ghost['ledger_sweep'] = (hc, v, sname, T0, z3.Select(G0, hc), ledger_T(st), z3.Select(ledger_G(st), hc),
-                                            C.heap_array(st, BALLOT, 'weight', 'val'))
-            return [sname == v - q]
+                                            C.heap_array(st, BALLOT, 'weight', 'val'), mc, it)
+                if L is not None and L.elem is not None:
+                    out += [mc(z3.IntVal(0)) == 0, mc(it) >= 0,
+                            z3.Implies(z3.And(it >= 0, it < L.length), mc(it + 1) == mc(it) + wh(z3.Select(marr_, L.elem(it))))]
+            return out
         invs = [('[C02,C06] ledger: the other candidates\' tallies move with the value of the ballots standing with them',
                  lambda st, it: z3.ForAll([c], z3.Implies(z3.And(inC(c), c != hc),
                      z3.Select(C.heap_array(st, CAND, 'vote', 'val'), c) - z3.Select(ledger_G(st), c) ==
@@ -1026,6 +1096,11 @@ def install_election(ex):
         else:
             invs.append(('[C02] ledger: credited x tally <= value that left the pile x surplus (no vote is created)',
                          lambda st, it: (ledger_T(st) - T0) * v <= (z3.Select(G0, hc) - z3.Select(ledger_G(st), hc)) * sname))
+            if L is not None and L.elem is not None:
+                from .arith import SCALE
+                invs.append(('[C02] ledger: value that left the pile x surplus - credited x tally <= (tally + one vote) x papers visited',
+                             lambda st, it: (z3.Select(G0, hc) - z3.Select(ledger_G(st), hc)) * sname - (ledger_T(st) - T0) * v
+                             <= (v + SCALE) * mc(it)))
         invs = [(lab, f) for lab, f in invs]
         return invs, ax
     ex.hooks['loop_declared'] = loop_declared
@@ -1113,6 +1188,17 @@ def install_election(ex):
                        C.assumptions(ex_head), none_left)
         # proved above (an obligation of its own), so the lemma's conclusion is available from here on
         ex_head.assume(z3.Select(ledger_G(ex_head), hc) == 0)
+        swi = ex_head.ghost.get('ledger_sweep')
+        if (BALLOT, 'weight') in W.heap and swi is not None and len(swi) > 9 and swi[0].eq(hc) and L is not None:
+            # the surplus sweep that just ended: (tally, surplus, papers re-weighted, total before, total after, pile before)
+            v_, s_, T0_, G0h_, mc_ = swi[1], swi[2], swi[3], swi[4], swi[8]
+            Gx = z3.Select(ledger_G(ex_head), hc)
+            idz = (G0h_ - Gx) * s_ == G0h_ * s_
+            if not getattr(ex, 'muted', 0):
+                ex.col.add('PRE', ['C02'], fname_, 'sweep@%d:pile-emptied-identity' % C.site_anchor_n(fname_, 'sweep-complete', getattr(s, 'lineno', 0)),
+                           'polynomial identity once the pile is empty', [Gx == 0], idz)
+            ex_head.assume(idz)
+            ex_head.ghost['ledger_rw'] = (v_, s_, mc_(L.length), T0_, ledger_T(ex_head), G0h_)
     ex.hooks['loop_exit'] = loop_exit
 
     def dynamic_facts(st):
